@@ -71,8 +71,74 @@ def shapes():
     return cases
 
 
+def fresh_programs():
+    """class-definition programs executed with brand-new classes (the class analysis cache is process-global, so order-of-first-use effects
+    can only be seen on classes that have never been pickled before)"""
+    progs = []
+    for helper_marker in (False, True):
+        for optin_marker in (False, True):
+            for helper_first_in_bases in (True, False):
+                for warm in ('none', 'helper', 'optin_base', 'both'):
+                    for container in ('list_helper_first', 'list_derived_first', 'alone'):
+                        progs.append({'fresh': True, 'helper_marker': helper_marker, 'optin_marker': optin_marker, 'helper_first_in_bases': helper_first_in_bases,
+                                      'warm': warm, 'container': container})
+    return progs
+
+
+_fresh_n = [0]
+
+
+def run_fresh(case, out):
+    _fresh_n[0] += 1
+    n = _fresh_n[0]
+    calls = []
+    hb = (rp.SupportRemoteGetState,) if case['helper_marker'] else (object,)
+    ob = (rp.SupportRemoteGetState,) if case['optin_marker'] else (object,)
+    H = type(hb[0])(f'FH{n}', hb, {'__module__': __name__, '__qualname__': f'FH{n}'})
+
+    def gs(self, remote=False):
+        calls.append(bool(remote))
+        d = dict(self.__dict__)
+        d['_via'] = 'remote' if remote else 'local'
+        return d
+
+    def ss(self, state):
+        self.__dict__.update(state)
+    O = type(ob[0])(f'FO{n}', ob, {'__module__': __name__, '__qualname__': f'FO{n}', '__getstate__': gs, '__setstate__': ss})
+    bases = (H, O) if case['helper_first_in_bases'] else (O, H)
+    D = type(O)(f'FD{n}', bases, {'__module__': __name__, '__qualname__': f'FD{n}'})
+    for c in (H, O, D):
+        globals()[c.__name__] = c
+    site = 'fresh_mi:' + ('helper_first' if case['helper_first_in_bases'] else 'optin_first') + ':warm_' + case['warm']
+    out.label('fresh_class_program')
+    out.nontrivial = True
+    try:
+        if case['warm'] in ('helper', 'both'):
+            rp.loads(rp.dumps(H()))
+        if case['warm'] in ('optin_base', 'both'):
+            rp.loads(rp.dumps(O()))
+        del calls[:]
+        d = D()
+        d.x = 1
+        g = {'list_helper_first': [H(), d], 'list_derived_first': [d, H()], 'alone': d}[case['container']]
+        data = rp.dumps(g)
+        if calls != [True]:
+            out.viol('getstate_without_remote_flag' if calls else 'getstate_count', site, f'derived instance of a fresh class: __getstate__ flags during dump: {calls}')
+        back = rp.loads(data)
+        b = back if case['container'] == 'alone' else [x for x in back if type(x) is D][0]
+        if vars(b) != {'x': 1, '_via': 'remote'}:
+            out.viol('different_graph', site, f'restored state {vars(b)!r}')
+    except Exception as e:
+        out.viol('dumps_or_loads_raised:' + type(e).__name__, site, repr(e)[:200])
+    out.obs = {'program': case, 'flags': calls}
+    return out
+
+
 def exhaustive(tier, shard, nshards):
     for i, c in enumerate(shapes()):
+        if i % nshards == shard:
+            yield c
+    for i, c in enumerate(fresh_programs()):
         if i % nshards == shard:
             yield c
 
@@ -132,6 +198,8 @@ def features(root, remote=True):
 
 def run_case(case, ctx):
     out = Out()
+    if case.get('fresh'):
+        return run_fresh(case, out)
     G.log_reset()
     root, nodes = G.build(case)
     troot, tnodes = G.build(case, twin=True)
@@ -225,6 +293,8 @@ def _diff(a, b):
 
 
 def simplify(case):
+    if case.get('fresh'):
+        return
     n = case['nodes']
     for i in range(len(n) - 1, -1, -1):
         if len(n) > 1:
